@@ -49,8 +49,9 @@ func (m *DisconnectMessage) Decode(src []byte) (int, error) {
 
 	// Keep the accepted bytes, as the other message types do: an unmodified decoded
 	// message re-encodes to exactly what was decoded, even if the remaining length
-	// was not encoded in its shortest form.
-	m.dbuf = src[:n]
+	// was not encoded in its shortest form. A remaining length other than zero is
+	// tolerated; the bytes it announces belong to the packet.
+	m.dbuf = src[:n+int(m.remlen)]
 	m.dirty = false
 
 	return n, nil
